@@ -635,12 +635,19 @@ class Gen:
             let_tok, params, b_lo, b_hi, end_tok = c
         else:
             cs = find_inline_closures(src, it.body_open, it.end)
-            n = int(kw.get('nth', 0))
+            if kw.get('nth') == 'params':
+                # semantic anchor: the unique inline closure with exactly these parameters
+                cand = [i for i, c in enumerate(cs) if norm(c[1]) == norm(kw['params'].replace('~', ' '))]
+                if len(cand) != 1:
+                    raise LostAnchor('inline closure with params %r: %d candidates in %s' % (kw['params'], len(cand), selector))
+                n = cand[0]
+            else:
+                n = int(kw.get('nth', 0))
             if n >= len(cs):
                 raise LostAnchor('inline closure %d not found in %s' % (n, selector))
             let_tok, params, b_lo, b_hi = cs[n]
             end_tok = b_hi
-            if 'params' in kw and norm(kw['params']) != norm(params):
+            if 'params' in kw and norm(kw['params'].replace('~', ' ')) != norm(params):
                 raise LostAnchor('inline closure %d of %s has params %r' % (n, selector, params))
             kw['name'] = '#%d' % n
         oblig = kw['as']
